@@ -450,6 +450,8 @@ func runC14(c *Ctx) {
 		}
 	}
 	c14PrefixNotPath(c, stPkgs)
+	// a failed put must not change the map: the disk bucket's atomic writer (shared with C15)
+	c15AtomicWriter(c)
 }
 
 // ruleOneCriticalSection (added after seeded change C14-b): in every method of typeName, all accesses to the
